@@ -33,6 +33,27 @@ pub struct LocalCase {
     pub read_at: Option<(u16, u16)>,
 }
 
+/// one operation on a local reader that lives for the whole case
+#[derive(Clone, Debug, Serialize, Deserialize)]
+pub enum SessOp {
+    ReadAt(u16, u16),
+    /// read all the ranges
+    Chunks(Vec<RangeSpec>),
+    /// take only the first k items of the stream, then drop it (a consumer that stops early)
+    ChunksPartial(Vec<RangeSpec>, u8),
+}
+
+/// A local reader used more than once: it may have been partly consumed before it was wrapped (`start_pos`), and every
+/// operation starts wherever the previous one left the underlying reader.
+#[derive(Clone, Debug, Serialize, Deserialize)]
+pub struct SessionCase {
+    pub data_len: u16,
+    pub seed: u32,
+    pub start_pos: u16,
+    pub reads: ReadScript,
+    pub ops: Vec<SessOp>,
+}
+
 /// one failure step for the k-th request of the whole session
 #[derive(Clone, Debug, Serialize, Deserialize, PartialEq)]
 pub enum Step {
@@ -182,6 +203,58 @@ fn run_local(c: &LocalCase, rec: &mut CaseRec) -> Result<(), String> {
     rec.class_if(ranges.windows(2).any(|w| w[1].0 < w[0].0), "unordered_ranges");
     rec.class_if(ranges.windows(2).any(|w| w[1].0 < w[0].0 + w[0].1 as u64 && w[1].0 >= w[0].0), "overlapping_ranges");
     rec.nontrivial = (short || (eof.is_some() && first_bad.is_some())) && ranges.len() >= 2;
+    Ok(())
+}
+
+fn run_session(c: &SessionCase, rec: &mut CaseRec) -> Result<(), String> {
+    let data = Arc::new(blob(c.data_len as usize, c.seed));
+    let mut fr = FragReader::new(data.clone(), c.reads.clone());
+    let start_pos = idx(c.start_pos, data.len() + 1);
+    fr.set_pos(start_pos);
+    let mut reader = IoReader::new(fr);
+    let mut first_range_at_zero_on_used_reader = false;
+    let mut used = start_pos != 0;
+    for (k, op) in c.ops.iter().enumerate() {
+        match op {
+            SessOp::ReadAt(o, l) => {
+                let o = idx(*o, data.len());
+                let l = (*l as usize).clamp(1, data.len() - o);
+                let b = crate::util::block_on_simple(reader.read_at(o as u64, l)).map_err(|e| format!("session op #{}: read_at({},{}) failed although the bytes are available: {}", k, o, l, e))?;
+                if b[..] != data[o..o + l] {
+                    return Err(format!("session op #{}: read_at({},{}) returned {} bytes / wrong bytes", k, o, l, b.len()));
+                }
+            }
+            SessOp::Chunks(specs) | SessOp::ChunksPartial(specs, _) => {
+                let mut ranges = place_ranges(specs, data.len());
+                if ranges.is_empty() {
+                    continue;
+                }
+                first_range_at_zero_on_used_reader |= used && ranges[0].0 == 0;
+                let chunks: Vec<ChunkOffset> = ranges.iter().map(|(o, l)| ChunkOffset::new(*o, *l)).collect();
+                let take = match op {
+                    SessOp::ChunksPartial(_, n) => (*n as usize) % ranges.len(),
+                    _ => ranges.len(),
+                };
+                ranges.truncate(take);
+                let (n, err) = crate::util::block_on_simple(async {
+                    use futures_util::StreamExt;
+                    let stream = reader.read_chunks(chunks).take(take);
+                    drain(Box::pin(stream), &data, &ranges).await
+                })
+                .map_err(|e| format!("session op #{}: {}", k, e))?;
+                if n != take || err.is_some() {
+                    return Err(format!("session op #{}: {} of {} ranges delivered, error {:?}, although all ranges are readable", k, n, take, err));
+                }
+            }
+        }
+        used = true;
+    }
+    rec.level = Some("L1");
+    rec.class("local_session");
+    rec.class_if(start_pos != 0, "reader_partly_consumed_before_wrapping");
+    rec.class_if(first_range_at_zero_on_used_reader, "first_range_at_offset_0_on_a_used_reader");
+    rec.class_if(c.ops.iter().any(|o| matches!(o, SessOp::ChunksPartial(..))), "stream_dropped_early");
+    rec.nontrivial = c.ops.len() >= 2 || start_pos != 0;
     Ok(())
 }
 
@@ -449,9 +522,18 @@ fn cli_strategy() -> impl Strategy<Value = CliCase> {
 
 fn ranges_strategy(max: usize) -> impl Strategy<Value = Vec<RangeSpec>> {
     prop::collection::vec(
-        (any::<u16>(), prop_oneof![3 => 1u16..=16, 2 => 1u16..=200, 1 => 1u16..=3000], prop_oneof![3 => Just(0u8), 4 => Just(1u8), 1 => Just(2u8)]).prop_map(|(start, len, rel)| RangeSpec { start, len, rel }),
+        (prop_oneof![1 => Just(0u16), 6 => any::<u16>()], prop_oneof![3 => 1u16..=16, 2 => 1u16..=200, 1 => 1u16..=3000], prop_oneof![3 => Just(0u8), 4 => Just(1u8), 1 => Just(2u8)]).prop_map(|(start, len, rel)| RangeSpec { start, len, rel }),
         1..=max,
     )
+}
+fn session_strategy() -> impl Strategy<Value = SessionCase> {
+    let op = prop_oneof![
+        2 => (prop_oneof![1 => Just(0u16), 3 => any::<u16>()], 1u16..500).prop_map(|(o, l)| SessOp::ReadAt(o, l)),
+        4 => ranges_strategy(6).prop_map(SessOp::Chunks),
+        1 => (ranges_strategy(6), any::<u8>()).prop_map(|(r, n)| SessOp::ChunksPartial(r, n)),
+    ];
+    (1u16..=6000, any::<u32>(), prop_oneof![2 => Just(0u16), 1 => Just(u16::MAX), 3 => any::<u16>()], read_script_strategy(), prop::collection::vec(op, 1..6))
+        .prop_map(|(data_len, seed, start_pos, reads, ops)| SessionCase { data_len, seed, start_pos, reads, ops })
 }
 fn local_strategy() -> impl Strategy<Value = LocalCase> {
     (1u16..=6000, any::<u32>(), ranges_strategy(8), read_script_strategy(), prop_oneof![3 => Just(None), 1 => any::<u16>().prop_map(Some)], prop_oneof![Just(None), (any::<u16>(), 1u16..500).prop_map(Some)])
@@ -486,7 +568,7 @@ impl Prop for C08 {
     fn meta(&self, _tier: Tier) -> Meta {
         Meta {
             level: "fault_enumeration",
-            rule: "local: data blob x range lists (placed, adjacent, overlapping, unordered; sizes >= 1) x read scripts (short reads of 1,2,3,7,random sizes, Pending at scripted polls) x early EOF, through IoReader::read_chunks / read_at. http: the same range lists through HttpReader::read_chunks / read_at against the scripted server with a per-request fault step (ok | accept-and-drop | cut after k body bytes (FIN) | clean early end after k bytes), retry budget 0..3, delay 0, body flushed in pieces or chunked transfer encoding. 'cuts': for bodies of <= 40 bytes EVERY cut offset 0..len of the first request x second-request step in {ok, cut 0, cut 1, drop} x budget 0..3. Oracle: items == requested slices in order; the Range log equals the resume model exactly (request i+1 starts at offset + bytes received, at most 1+budget requests per run of adjacent ranges); budget exhaustion or an early clean end gives Err after a correct prefix and then the end of the stream; read_at returns exactly size bytes or Err and re-requests the whole range. Non-trivial = a mid-body cut followed by a resume, budget exhaustion, clean early end, or a short read inside a chunk / early EOF; distinct by Blake2 of the canonical case.".into(),
+            rule: "local: data blob x range lists (placed, adjacent, overlapping, unordered; sizes >= 1) x read scripts (short reads of 1,2,3,7,random sizes, Pending at scripted polls) x early EOF, through IoReader::read_chunks / read_at on a fresh reader. session: ONE local reader, possibly consumed up to an arbitrary position before it was wrapped, used for 1-5 operations in a row (read_at, read_chunks read to the end, read_chunks dropped after k items), range lists starting at offset 0 with weight 1/7. http: the same range lists through HttpReader::read_chunks / read_at against the scripted server with a per-request fault step (ok | accept-and-drop | cut after k body bytes (FIN) | clean early end after k bytes), retry budget 0..3, delay 0, body flushed in pieces or chunked transfer encoding. 'cuts': for bodies of <= 40 bytes EVERY cut offset 0..len of the first request x second-request step in {ok, cut 0, cut 1, drop} x budget 0..3. Oracle: items == requested slices in order; the Range log equals the resume model exactly (request i+1 starts at offset + bytes received, at most 1+budget requests per run of adjacent ranges); budget exhaustion or an early clean end gives Err after a correct prefix and then the end of the stream; read_at returns exactly size bytes or Err and re-requests the whole range. Non-trivial = a mid-body cut followed by a resume, budget exhaustion, clean early end, or a short read inside a chunk / early EOF; distinct by Blake2 of the canonical case.".into(),
             assumptions: vec!["the server returns correct bytes whenever it answers (wrong data is C04's domain); zero-length ranges are outside the domain (no caller produces them)".into(), "true 'connection refused' is replaced by accept-and-drop".into()],
             ..Meta::default()
         }
@@ -494,6 +576,7 @@ impl Prop for C08 {
     fn run_worker(&self, cx: &mut WorkerCtx) {
         let t = cx.tier;
         cx.run_prop("local", t.pick(60_000, 1_000_000), local_strategy(), run_local);
+        cx.run_prop("session", t.pick(60_000, 1_000_000), session_strategy(), run_session);
         // exhaustive cut offsets
         if std::env::var("VERIF_ONLY").map(|o| o.split(',').any(|v| v == "cuts")).unwrap_or(true) {
             let lens: Vec<u16> = t.pick(vec![1, 2, 7, 24], vec![1, 2, 3, 7, 16, 24, 40]);
@@ -559,6 +642,7 @@ impl Prop for C08 {
         match variant {
             "splits" | "cuts" => run_http(&serde_json::from_value(case.clone()).map_err(|e| e.to_string())?, &mut rec),
             "cli" => run_cli(&serde_json::from_value(case.clone()).map_err(|e| e.to_string())?, &mut rec),
+            "session" => run_session(&serde_json::from_value(case.clone()).map_err(|e| e.to_string())?, &mut rec),
             "local" => run_local(&serde_json::from_value(case.clone()).map_err(|e| e.to_string())?, &mut rec),
             _ => run_http(&serde_json::from_value(case.clone()).map_err(|e| e.to_string())?, &mut rec),
         }
